@@ -16,7 +16,8 @@ sys.setrecursionlimit(20000)
 UNDEF = ("undef",)
 _NONNEG = set()   # values known non-negative from the kernel's own assumptions (reset per function)
 _RANGES = {}      # signed value ranges of parameters from the kernel's own entry assumptions (reset per function)
-_DOMAINS = {}     # the same knowledge as interval sets of bit patterns (vlib.iset.ISet), per parameter
+_DOMAINS = {}
+_FIXED = {}     # the same knowledge as interval sets of bit patterns (vlib.iset.ISet), per parameter
 
 
 class Unsupported(Exception):
@@ -135,6 +136,10 @@ def mk_bin(op, ty, a, b):
     if bits and op == "shl" and is_c(b) and a[0] == "cast" and a[1] == "sext" and _bits(a[2]) and b[2] >= bits - _bits(a[2]):
         # every extension bit is shifted out: the kind of extension is immaterial (canonical: zext)
         a = mk_cast("zext", a[2], a[4], a[3])
+    elif bits and op == "shl" and is_c(b) and a[0] == "cast" and a[1] == "sext" and _bits(a[2]) and 0 < b[2] < bits - _bits(a[2]):
+        # the top b extension bits are shifted out: sext n->m, << s  ==  zext (m-s)->m of sext n->(m-s), << s
+        mid = "i%d" % (bits - b[2])
+        a = mk_cast("zext", mid, mk_cast("sext", a[2], a[4], mid), a[3])
     if bits and bits > 1:
         def neg_of(e):
             return e[4] if (e[0] == "op" and e[1] == "sub" and is_c(e[3]) and e[3][2] == 0) else None
@@ -166,6 +171,16 @@ def mk_bin(op, ty, a, b):
                     return mk_cast("sext", "i64", X, "i128")
                 if L[0] == "cast" and L[1] == "sext" and L[4] == X:
                     return mk_cast("sext", L[2], X, "i128")
+        for lo, hi in ((a, b), (b, a)):
+            # two-word left shift reassembled: ((zext64(x) << s) & (2^64 - 2^s)) | (zext64(x >> (64 - s)) << 64)  ==  zext64(x) << s
+            if lo[0] == "op" and lo[1] == "and" and hi[0] == "op" and hi[1] == "shl" and hi[4] == C(128, 64) \
+                    and hi[3][0] == "cast" and hi[3][1] == "zext" and hi[3][2] == "i64":
+                for msk, sh in ((lo[3], lo[4]), (lo[4], lo[3])):
+                    if is_c(msk) and sh[0] == "op" and sh[1] == "shl" and is_c(sh[4]) and 0 < sh[4][2] < 64 and msk[2] == (1 << 64) - (1 << sh[4][2]) \
+                            and sh[3][0] == "cast" and sh[3][1] == "zext" and sh[3][2] == "i64":
+                        x, sft = sh[3][4], sh[4][2]
+                        if hi[3][4] == mk_bin("lshr", "i64", x, C(64, 64 - sft)):
+                            return sh
         for lo, hi in ((a, b), (b, a)):
             if lo[0] == "cast" and lo[1] == "zext" and lo[2] == "i64" and hi[0] == "op" and hi[1] == "shl" and hi[4] == C(128, 64) \
                     and hi[3][0] == "cast" and hi[3][1] == "zext" and hi[3][2] == "i64":
@@ -795,6 +810,12 @@ def gated(mod, fn, max_paths=4000, control_only=False):
                     ty, tok = part.rsplit(" ", 1) if " " in part else (part, "")
                     a.append((ty, operand(tok, ty, env)))
                 return mk_call(m.group(1), m.group(2), a)
+        if op == "insertvalue":
+            # aggregate construction with every element an operand (a literal and a folded constant must look alike)
+            m = re.match(r"^insertvalue (\{.*?\}|\S+) ([^,]+), (\S+) ([^,]+), (\d+)$", body)
+            if m:
+                base = UNDEF if m.group(2).strip() in ("poison", "undef") else operand(m.group(2), m.group(1), env)
+                return ("raw", "insertvalue %s %%0, %s %%1, %s" % (m.group(1), m.group(3), m.group(5)), (base, operand(m.group(4), m.group(3), env)))
         # generic pure instruction: template + operands
         ops = []
         def rep(mm):
@@ -836,7 +857,7 @@ def gated(mod, fn, max_paths=4000, control_only=False):
             sb = strip(body)
             if irmod._is_term(l):
                 if sb.startswith("ret "):
-                    m = re.match(r"^ret (\S+?|\{.*\}) (.+)$", sb)
+                    m = re.match(r"^ret (\{.*?\}|\S+?) (.+)$", sb)
                     if sb == "ret void":
                         return ("k", "void", "void")
                     return operand(m.group(2), m.group(1), env)
@@ -917,10 +938,14 @@ def gated(mod, fn, max_paths=4000, control_only=False):
     _NONNEG.clear()
     _RANGES.clear()
     _DOMAINS.clear()
+    _FIXED.clear()
     first = run(fn.order[0], None, args, 0)
-    if not _NONNEG and not _RANGES and not _DOMAINS:
+    if not _NONNEG and not _RANGES and not _DOMAINS and not _FIXED:
         return first
     budget[0] = max_paths
+    for pn in list(args):
+        if args[pn] in _FIXED:
+            args[pn] = _FIXED[args[pn]]     # a parameter the entry assumptions pin to one value
     return run(fn.order[0], None, args, 0)   # second pass: the harvested sign knowledge is applied everywhere
 
 
@@ -968,8 +993,12 @@ def _harvest(c):
         b = c[4][1]
         if (c[1] == "sgt" and sval(c[4]) >= -1) or (c[1] == "sge" and sval(c[4]) >= 0) or (c[1] == "ult" and c[4][2] <= (1 << (b - 1))) or (c[1] == "ule" and c[4][2] < (1 << (b - 1))):
             _NONNEG.add(c[3])
-    if c[0] == "icmpx":
-        pass
+    # a two-word parameter (hi:lo) assumed below 2^64: the high word is zero
+    if c[0] in ("icmp", "icmpx") and c[1] in ("ult", "lt") and is_c(c[4]) and c[4][2] <= (1 << 64) and c[3][0] == "op" and c[3][1] == "or" and _bits(c[3][2]) == 128:
+        for lo, hi in ((c[3][3], c[3][4]), (c[3][4], c[3][3])):
+            if lo[0] == "cast" and lo[1] == "zext" and lo[2] == "i64" and hi[0] == "op" and hi[1] == "shl" and hi[4] == C(128, 64) \
+                    and hi[3][0] == "cast" and hi[3][1] == "zext" and hi[3][2] == "i64" and hi[3][4][0] == "arg":
+                _FIXED[hi[3][4]] = C(64, 0)
 
 
 def _atoms(e, out, seen):
